@@ -202,78 +202,86 @@ def check_entry_moves_whole(P, ctx, rule='C17.entry-moves-whole'):
         cps = [(n, c) for n in g.live() if n['expr'] is not None for c in ir.calls(n['expr']) if ir.callee_name(c) in ('memcpy', 'memmove') and util.mentions_field(c[2][0], 'entries')]
         ok = len(cps) == 1 and ir.top_nocast(cps[0][1][2][2]) == ('sizeof', ('type', 'struct GCEntry'))
         ctx.check(ok, rule, f + ':back-shift', site(fn), 'the back-shift moves sizeof(struct GCEntry) bytes: the whole entry')
-    # rehash re-inserts each occupied old slot with its own pointer and root flag
+    # rehash re-inserts each occupied old slot with its own pointer and root flag (evaluated with cint on old tables of 0..4 slots,
+    # every occupancy): the insertions go into the new table, each occupied slot once with its own pointer and flag, then the old
+    # table — and only it — is freed
+    from . import cint
+    import itertools
     fn = P.fn('GC_Rehash')
-    g = P.cfg(fn)
     ctx.fn(fn)
-    N = util.Norm(P, fn, inline=False)
-    cs = [(n, c) for (n, c) in g.nodes_calling('GC_Set_Ptr')]
-    ok = len(cs) == 1
-    if ok:
-        n, c = cs[0]
-        a1, a2 = ir.nocast(c[2][1]), ir.nocast(c[2][2])
-        same = a1[0] == 'dot' and a2[0] == 'dot' and a1[2] == 'ptr' and a2[2] == 'root' and a1[1] == a2[1] and a1[1][0] == 'idx'
-        old = ir.top_nocast(a1[1][1]) if same else None
-        defs = util.single_defs(fn)
-        ok = same and old[0] == 'local' and old[2] in defs and N.canon(defs[old[2]]) == ('arrow', ('param', 0), 'entries')
-        # loop over the full old size, guarded by hash != 0
-        conds = [x for x in g.live() if x['kind'] == 'cond' and loops.counted_loop(g, None, x) is not None]
-        lp = None
-        for x in conds:
-            l = loops.counted_loop(g, None, x)
-            bnd = [y for y in ir.walk(l['cond']) if y[0] == 'local' and y != l['iv']]
-            if bnd and bnd[0][2] in defs and N.canon(defs[bnd[0][2]]) == ('arrow', ('param', 0), 'nslots'):
-                try:
-                    if all(loops.iterate(l, {bnd[0]: k}) == list(range(k)) for k in range(5)):
-                        lp = l
-                except loops.NoEval:
-                    pass
-        ok = ok and lp is not None and ir.top_nocast(a1[1][2]) == lp['iv'] and loops.step_on_every_iteration(g, lp) and loops.sole_exit(g, lp)
-        occ = [x for x in g.live() if x['kind'] == 'cond' and x is not (lp or {}).get('cond_node') and util.mentions_field(x['expr'], 'hash')]
-        ok = ok and len(occ) == 1 and g.must_pass(n['id'], through_edges=[(occ[0]['id'], ir.canon(occ[0]['expr'])[1] == '!=')])
-        tgt = [v for v, l_ in occ[0]['succ'] if l_ == (ir.canon(occ[0]['expr'])[1] == '!=')] if len(occ) == 1 else []
-        ok = ok and bool(tgt) and n['id'] in g.reach_from(tgt[0])
-        fr = [(x, c2) for (x, c2) in g.nodes_calling('free')]
-        ok = ok and len(fr) == 1 and ir.top_nocast(fr[0][1][2][0]) == old and n['id'] not in g.reach_from(fr[0][0]['id'])
-        # the old table is captured before the fields are overwritten
-    ctx.check(ok, rule, 'GC_Rehash', site(fn), 'rehash re-inserts every occupied slot of the old table with that slot\'s own pointer and root flag, then frees the old table')
+    bad, unsup, ncase = None, None, 0
+    GCP, OLD, NEW = ('ep', 'gc', 0), ('ep', 'old', 0), ('ep', 'new', 0)
+    for k in range(0, 5):
+        for occ in itertools.product((0, 1), repeat=k):
+            atoms = {('global', 'NULL'): 0, ('elem', 'gc', 0, 'entries'): OLD, ('elem', 'gc', 0, 'nslots'): k, ('elem', 'gc', 0, 'nitems'): sum(occ)}
+            for i in range(k):
+                atoms[('elem', 'old', i, 'hash')] = (40 + i) if occ[i] else 0
+                atoms[('elem', 'old', i, 'ptr')] = (7000 + 8 * i) if occ[i] else 0
+                atoms[('elem', 'old', i, 'root')] = (i % 2) if occ[i] else 0
+                atoms[('elem', 'old', i, 'marked')] = 0
+            events = []
+
+            def call(nm, e, it, events=events, atoms=atoms):
+                if nm == 'calloc':
+                    events.append(('calloc', it.ev(e[2][0])))
+                    return NEW
+                if nm == 'GC_Set_Ptr':
+                    events.append(('insert', it.ev(e[2][1]), it.ev(e[2][2]), it.atoms.get(('elem', 'gc', 0, 'entries')), it.atoms.get(('elem', 'gc', 0, 'nslots'))))
+                    return 0
+                if nm == 'free':
+                    events.append(('free', it.ev(e[2][0])))
+                    return 0
+                raise cint.NoEval('call %s' % nm)
+            it = cint.CInt(P, fn, atoms=atoms, call=call, max_steps=3000)
+            r = it.run([GCP, 11])
+            ncase += 1
+            label = 'old table %s' % (''.join('x' if o else '.' for o in occ) or '(no slots)')
+            if r[0] != 'ret':
+                unsup = unsup or '%s: %s' % (label, r[1])
+                continue
+            want = [('calloc', 11)] + [('insert', 7000 + 8 * i, i % 2, NEW, 11) for i in range(k) if occ[i]] + [('free', OLD)]
+            got = [ev_ for ev_ in events]
+            if sorted(map(repr, got[1:-1])) != sorted(map(repr, want[1:-1])) or got[:1] != want[:1] or got[-1:] != want[-1:]:
+                if bad is None:
+                    ins = [ev_ for ev_ in got if ev_[0] == 'insert']
+                    wins = [ev_ for ev_ in want if ev_[0] == 'insert']
+                    if sorted(map(repr, ins)) != sorted(map(repr, wins)):
+                        bad = '%s: re-inserts %s; the occupied slots hold %s' % (label, [('slot %s' % ((x[1] - 7000) // 8), 'root' if x[2] else 'plain', 'into the new table' if x[3] == NEW and x[4] == 11 else 'NOT into the new table')
+                                                                                   for x in ins], [((x[1] - 7000) // 8, 'root' if x[2] else 'plain') for x in wins])
+                    else:
+                        bad = '%s: %s' % (label, 'the old table is not freed last (events: %s)' % [ev_[0] for ev_ in got])
+    ctx.stats['paths'] += ncase
+    if unsup and not bad:
+        ctx.undecided(rule, 'GC_Rehash', site(fn), 'rehash leaves the evaluated fragment: ' + unsup)
+    else:
+        ctx.check(bad is None, rule, 'GC_Rehash', site(fn), 'rehash re-inserts every occupied slot of the old table with that slot\'s own pointer and root flag, then frees the old table '
+                  '(%d old tables evaluated)' % ncase, [bad] if bad else None)
     ctx.floor(rule, 4)
 
 
 def check_counts(P, ctx):
     rule = 'C17.count-pairing'
-    # GC_Set: running -> nitems++ once, growth before insertion
+    # GC_Set and the resize helpers, evaluated (cint): a running collector counts the new object once, grows the table when the ideal size
+    # for the *new* count exceeds the slots, then inserts (key, root flag) once; a stopped collector changes nothing
+    res = eval_gc_set(P)
     fn = P.fn(P.slot('GC', 'Get', 'set'))
-    g = P.cfg(fn)
     ctx.fn(fn)
-    N = util.Norm(P, fn)
-    incs = [n for n in g.live() if n['expr'] is not None and N.canon(n['expr']) in (('un', 'post++', ('arrow', ('param', 0), 'nitems')), ('un', 'pre++', ('arrow', ('param', 0), 'nitems')))]
-    ins = [n for (n, c) in g.nodes_calling('GC_Set_Ptr')]
-    grow = [n for (n, c) in g.nodes_calling('GC_Resize_More')]
-    run = [n for n in g.live() if n['kind'] == 'cond' and N.canon(n['expr']) == ('arrow', ('param', 0), 'running')]
-    ok = len(incs) == 1 and len(ins) == 1 and len(grow) == 1 and len(run) == 1 and \
-        g.must_pass(ins[0]['id'], [grow[0]['id']]) and g.must_pass(grow[0]['id'], [incs[0]['id']]) and \
-        g.must_pass(ins[0]['id'], through_edges=[(run[0]['id'], True)]) and incs[0]['id'] not in g.reach_from(incs[0]['succ'][0][0])
-    if ok:
-        # when running, the insertion is unconditional
-        t = [v for v, l in run[0]['succ'] if l is True][0]
-        ok = g.must_pass(g.exit, [ins[0]['id']], start=t)
-    ctx.check(ok, rule, 'GC_Set', site(fn), 'a running collector counts the new object once, grows the table for the new count, then inserts it — on every path')
-    # resize helpers compare Ideal_Size(nitems) with nslots in the right direction
-    for f, op in (('GC_Resize_More', '<'), ('GC_Resize_Less', '>')):
-        fn = P.fn(f)
-        g = P.cfg(fn)
-        N = util.Norm(P, fn, expand_locals=True)
-        conds = [n for n in g.live() if n['kind'] == 'cond']
-        rh = [(n, c) for (n, c) in g.nodes_calling('GC_Rehash')]
-        ok = len(conds) == 1 and len(rh) == 1
-        if ok:
-            c = N.canon(conds[0]['expr'])
-            ideal = ir.canon(('call', ('func', 'GC_Ideal_Size'), (('arrow', ('param', 'gc', 0), 'nitems'),)))
-            ns = ('arrow', ('param', 0), 'nslots')
-            want = ('bin', '<', ns, ideal) if op == '<' else ('bin', '<', ideal, ns)
-            ok = c == want and g.must_pass(rh[0][0]['id'], through_edges=[(conds[0]['id'], True)]) and N.canon(rh[0][1][2][1]) == ideal
-        ctx.check(ok, rule, f, site(fn), '%s rehashes to the ideal size for the current count exactly when that is %s than the slot count' % (f, 'larger' if op == '<' else 'smaller'))
+    ctx.stats['paths'] += res['n']
+    if res['unsup'] and not res['count']:
+        ctx.undecided(rule, 'GC_Set', site(fn), 'GC_Set leaves the evaluated fragment: ' + res['unsup'])
+    else:
+        ctx.check(res['count'] is None, rule, 'GC_Set', site(fn), 'a running collector counts the new object once, grows the table for the new count, then inserts it — on every path '
+                  '(%d cases evaluated)' % res['n'], [res['count']] if res['count'] else None)
+    for f, grows in (('GC_Resize_More', True), ('GC_Resize_Less', False)):
+        if P.fn(f, required=False) is None:
+            ctx.proved(rule, f, site(fn), 'no separate helper: the size test is part of its caller (evaluated there)')
+            continue
+        fn2, bad, unsup = eval_resize(P, f, grows)
+        if unsup and not bad:
+            ctx.undecided(rule, f, site(fn2), 'leaves the evaluated fragment: ' + unsup)
+        else:
+            ctx.check(bad is None, rule, f, site(fn2), ('%s rehashes to the ideal size for the current count whenever that is larger than the slot count' % f) if grows else
+                      ('%s rehashes to the ideal size for the current count, never to anything else' % f), [bad] if bad else None)
     # GC_Rem_Ptr: the hit path decrements once
     fn = P.fn('GC_Rem_Ptr')
     g = P.cfg(fn)
@@ -286,16 +294,171 @@ def check_counts(P, ctx):
     ctx.floor(rule, 4)
 
 
+def eval_resize(P, fname, grows):
+    from . import cint
+    fn = P.fn(fname)
+    bad, unsup = None, None
+    for nslots in (0, 53, 101):
+        for ideal in (0, 53, 101, 211):
+            for nitems in (0, 7):
+                events = []
+
+                def call(nm, e, it, events=events, ideal=ideal, nitems=nitems):
+                    if nm == 'GC_Ideal_Size':
+                        if it.ev(e[2][0]) != nitems:
+                            events.append(('ideal size of something that is not the count',))
+                        return ideal
+                    if nm == 'GC_Rehash':
+                        events.append(('rehash', it.ev(e[2][1])))
+                        return 0
+                    raise cint.NoEval('call %s' % nm)
+                atoms = {('elem', 'gc', 0, 'nslots'): nslots, ('elem', 'gc', 0, 'nitems'): nitems}
+                r = cint.CInt(P, fn, atoms=atoms, call=call, recurse=True).run([('ep', 'gc', 0)])
+                if r[0] != 'ret':
+                    unsup = '%s' % (r[1],)
+                    continue
+                need = grows and ideal > nslots
+                want = [('rehash', ideal)] if need else []
+                if not (events == want or (not need and events == [('rehash', ideal)])) and bad is None:
+                    bad = '%d slots, ideal size %d for the count: %s' % (nslots, ideal, ', '.join('%s%s' % (e_[0], e_[1:] if len(e_) > 1 else '') for e_ in events) or 'nothing happens')
+    return fn, bad, unsup
+
+
+def eval_gc_set(P):
+    """GC_Set evaluated over {running, stopped} x counts x slot counts x ideal sizes x thresholds x root flag.
+    -> {'count': mismatch in counting/growth/insertion, 'trigger': mismatch in the collection trigger, 'unsup', 'n'}"""
+    from . import cint
+    fn = P.fn(P.slot('GC', 'Get', 'set'))
+    out = {'count': None, 'trigger': None, 'unsup': None, 'n': 0}
+    KEY = 70000
+    for running in (1, 0):
+        for nitems in (0, 7):
+            for nslots in (0, 53):
+                for ideal in (53, 101):
+                    for mitems in (3, 100):
+                        for root in (0, 1):
+                            for lo, hi in ((60000, 80000), (71000, 72000), (10, 20)):
+                                events = []
+
+                                def call(nm, e, it, events=events, ideal=ideal, root=root):
+                                    if nm == 'GC_Ideal_Size':
+                                        events.append(('ideal', it.ev(e[2][0])))
+                                        return ideal
+                                    if nm == 'GC_Rehash':
+                                        events.append(('rehash', it.ev(e[2][1])))
+                                        return 0
+                                    if nm == 'GC_Set_Ptr':
+                                        events.append(('insert', it.ev(e[2][1]), it.ev(e[2][2]), it.atoms.get(('elem', 'gc', 0, 'nitems'))))
+                                        return 0
+                                    if nm in ('GC_Mark', 'GC_Sweep'):
+                                        events.append((nm,))
+                                        return 0
+                                    if nm == 'c_int':
+                                        return root
+                                    raise cint.NoEval('call %s' % nm)
+                                atoms = {('elem', 'gc', 0, 'running'): running, ('elem', 'gc', 0, 'nitems'): nitems, ('elem', 'gc', 0, 'nslots'): nslots,
+                                         ('elem', 'gc', 0, 'mitems'): mitems, ('elem', 'gc', 0, 'minptr'): lo, ('elem', 'gc', 0, 'maxptr'): hi}
+                                it = cint.CInt(P, fn, atoms=atoms, call=call, recurse=True)
+                                r = it.run([('ep', 'gc', 0), KEY, 9000])
+                                out['n'] += 1
+                                label = '%s collector, %d objects in %d slots (ideal size for one more: %d), threshold %d' % ('running' if running else 'stopped', nitems, nslots, ideal, mitems)
+                                if r[0] != 'ret':
+                                    out['unsup'] = out['unsup'] or '%s: %s' % (label, r[1])
+                                    continue
+                                at = it.atoms
+                                if not running:
+                                    if events or at[('elem', 'gc', 0, 'nitems')] != nitems:
+                                        out['count'] = out['count'] or '%s: %s' % (label, 'the registry is changed (%s)' % (events or 'count'))
+                                    continue
+                                ins = [e_ for e_ in events if e_[0] == 'insert']
+                                reh = [e_ for e_ in events if e_[0] == 'rehash']
+                                ide = [e_ for e_ in events if e_[0] == 'ideal']
+                                msg = None
+                                if at[('elem', 'gc', 0, 'nitems')] != nitems + 1:
+                                    msg = 'the count goes from %d to %d' % (nitems, at[('elem', 'gc', 0, 'nitems')])
+                                elif ins != [('insert', KEY, root, nitems + 1)]:
+                                    msg = 'insertions: %s (expected one of the key with root flag %d, after the count was raised)' % ([e_[1:] for e_ in ins], root)
+                                elif any(e_[1] != nitems + 1 for e_ in ide):
+                                    msg = 'the ideal size is computed for %s objects, there are %d with the new one' % ([e_[1] for e_ in ide], nitems + 1)
+                                elif ideal > nslots and (reh != [('rehash', ideal)] or events.index(reh[0]) > events.index(ins[0])):
+                                    msg = 'the table is not grown to %d slots before the insertion (%s)' % (ideal, [e_[0] for e_ in events])
+                                elif any(e_[1] != ideal for e_ in reh):
+                                    msg = 'rehash to %s, the ideal size is %d' % ([e_[1] for e_ in reh], ideal)
+                                elif not (at[('elem', 'gc', 0, 'minptr')] <= KEY <= at[('elem', 'gc', 0, 'maxptr')]):
+                                    msg = 'the address bounds [%s, %s] do not include the new object at %d' % (at[('elem', 'gc', 0, 'minptr')], at[('elem', 'gc', 0, 'maxptr')], KEY)
+                                if msg:
+                                    out['count'] = out['count'] or '%s: %s' % (label, msg)
+                                names = [e_[0] for e_ in events]
+                                if 'GC_Mark' in names or 'GC_Sweep' in names:
+                                    first = min(names.index(x) for x in ('GC_Mark', 'GC_Sweep') if x in names)
+                                    if 'insert' not in names or names.index('insert') > first:
+                                        out['trigger'] = out['trigger'] or '%s: a collection starts before the new object is in the registry (%s)' % (label, names)
+                                    elif 'GC_Mark' in names and 'GC_Sweep' in names and names.index('GC_Sweep') < names.index('GC_Mark'):
+                                        out['trigger'] = out['trigger'] or '%s: sweep before mark' % label
+                                    elif 'GC_Sweep' in names and 'GC_Mark' not in names:
+                                        out['trigger'] = out['trigger'] or '%s: sweep without mark' % label
+    return out
+
+
 def check_resize_after(P, ctx):
     rule = 'C17.resize-after'
-    for f in (P.slot('GC', 'Get', 'rem'), 'GC_Sweep'):
+    from . import cint
+    # GC_Rem evaluated: a running collector removes exactly the given pointer once; any rehash goes to the ideal size for the count
+    fn = P.fn(P.slot('GC', 'Get', 'rem'))
+    ctx.fn(fn)
+    bad, unsup = None, None
+    KEY = 70000
+    for running in (1, 0):
+        for nitems in (1, 8):
+            for nslots in (53, 211):
+                for ideal in (53, 101):
+                    events = []
+
+                    def call(nm, e, it, events=events, ideal=ideal):
+                        if nm == 'GC_Ideal_Size':
+                            events.append(('ideal', it.ev(e[2][0])))
+                            return ideal
+                        if nm == 'GC_Rehash':
+                            events.append(('rehash', it.ev(e[2][1])))
+                            return 0
+                        if nm == 'GC_Rem_Ptr':
+                            events.append(('remove', it.ev(e[2][1])))
+                            it.atoms[('elem', 'gc', 0, 'nitems')] -= 1
+                            return 0
+                        raise cint.NoEval('call %s' % nm)
+                    atoms = {('elem', 'gc', 0, 'running'): running, ('elem', 'gc', 0, 'nitems'): nitems, ('elem', 'gc', 0, 'nslots'): nslots, ('elem', 'gc', 0, 'mitems'): 5}
+                    it = cint.CInt(P, fn, atoms=atoms, call=call, recurse=True)
+                    it.atoms = atoms
+                    r = it.run([('ep', 'gc', 0), KEY])
+                    label = '%s collector, %d objects in %d slots' % ('running' if running else 'stopped', nitems, nslots)
+                    if r[0] != 'ret':
+                        unsup = unsup or '%s: %s' % (label, r[1])
+                        continue
+                    rem = [e_ for e_ in events if e_[0] == 'remove']
+                    msg = None
+                    if not running:
+                        if events:
+                            msg = 'the registry is changed (%s)' % [e_[0] for e_ in events]
+                    elif rem != [('remove', KEY)]:
+                        msg = 'removals: %s (expected one, of the given pointer)' % [e_[1] for e_ in rem]
+                    elif any(e_[0] == 'ideal' and e_[1] != nitems - 1 for e_ in events):
+                        msg = 'the ideal size is computed for %s objects, %d remain' % ([e_[1] for e_ in events if e_[0] == 'ideal'], nitems - 1)
+                    elif any(e_[0] == 'rehash' and (e_[1] != ideal or events.index(e_) < events.index(rem[0])) for e_ in events):
+                        msg = 'rehash %s' % [e_ for e_ in events if e_[0] == 'rehash']
+                    if msg and bad is None:
+                        bad = '%s: %s' % (label, msg)
+    if unsup and not bad:
+        ctx.undecided(rule, fn['name'], site(fn), 'leaves the evaluated fragment: ' + unsup)
+    else:
+        ctx.check(bad is None, rule, fn['name'], site(fn), 'a running collector removes exactly the given pointer, once; a shrink afterwards goes to the ideal size for the remaining count', [bad] if bad else None)
+    for f in ('GC_Sweep',):
         fn = P.fn(f)
         g = P.cfg(fn)
         ctx.fn(fn)
         N = util.Norm(P, fn)
         less = [n for (n, c) in g.nodes_calling('GC_Resize_Less')]
         thr = [n for n in g.live() if n['kind'] == 'stmt' and n['expr'] is not None and N.canon(n['expr'])[0] == 'assign' and N.canon(n['expr'])[2] == ('arrow', ('param', 0), 'mitems')]
-        rem = [n for (n, c) in g.nodes_calling('GC_Rem_Ptr')] if f != 'GC_Sweep' else [n for n in g.live() if n['expr'] is not None and N.canon(n['expr']) == ('un', 'post--', ('arrow', ('param', 0), 'nitems'))]
+        rem = [n for n in g.live() if n['expr'] is not None and N.canon(n['expr']) == ('un', 'post--', ('arrow', ('param', 0), 'nitems'))]
         ok = len(less) == 1 and len(thr) == 1 and bool(rem)
         if ok:
             start = rem[0]['id']
@@ -308,15 +471,14 @@ def check_resize_after(P, ctx):
             except loops.NoEval:
                 ok = False
         ctx.check(ok, rule, f, site(fn), 'after removals the table is shrunk if oversized and the next collection threshold is recomputed above the current count, on every normal path')
-    # collection trigger in GC_Set
+    # collection trigger in GC_Set (evaluated)
+    res = eval_gc_set(P)
     fn = P.fn(P.slot('GC', 'Get', 'set'))
-    g = P.cfg(fn)
-    N = util.Norm(P, fn)
-    trig = [n for n in g.live() if n['kind'] == 'cond' and N.canon(n['expr']) == ir.canon(('bin', '>', ('arrow', ('param', 'self', 0), 'nitems'), ('arrow', ('param', 'self', 0), 'mitems')))]
-    mk = [n for (n, c) in g.nodes_calling('GC_Mark')]
-    ins = [n for (n, c) in g.nodes_calling('GC_Set_Ptr')]
-    ok = len(trig) == 1 and len(mk) == 1 and g.must_pass(mk[0]['id'], through_edges=[(trig[0]['id'], True)]) and g.must_pass(trig[0]['id'], [ins[0]['id']])
-    ctx.check(ok, rule, 'GC_Set:trigger', site(fn), 'a collection is triggered only after the new object has been inserted (so it is seen on the stack scan) and only above the threshold')
+    if res['unsup'] and not res['trigger']:
+        ctx.undecided(rule, 'GC_Set:trigger', site(fn), 'GC_Set leaves the evaluated fragment: ' + res['unsup'])
+    else:
+        ctx.check(res['trigger'] is None, rule, 'GC_Set:trigger', site(fn), 'a collection is triggered only after the new object has been inserted (so it is seen on the stack scan), mark before '
+                  'sweep', [res['trigger']] if res['trigger'] else None)
     ctx.floor(rule, 3)
 
 
